@@ -51,7 +51,7 @@ class Result:
 _case_re = re.compile(r'^"@@(CASE|BAD|DONE) (.*)"$')
 
 
-def _parse(res, dedupe=True):
+def _parse(res, dedupe=True, raw_cases=False):
     seen = set()
     err_lines = []
     in_err = False
@@ -71,6 +71,10 @@ def _parse(res, dedupe=True):
                 if payload in seen:
                     continue
                 seen.add(payload)
+            if kind == 'CASE' and raw_cases:           # huge enumerations: keep the JSON text, the consumer parses one case at a time
+                res.cases.append(payload)
+                res.payloads.append(payload)
+                continue
             obj = json.loads(payload)
             (res.cases if kind == 'CASE' else res.bads).append(obj)
             if kind == 'CASE':
@@ -99,7 +103,7 @@ def _parse(res, dedupe=True):
 
 
 def run(module, cfg, workers=1, env=None, timeout=3600, simulate=None, depth=None, seed=None,
-        coverage=False, heap='4g', deadlock=True, dedupe=True, keep_stdout=True, dfs=False):
+        coverage=False, heap='4g', deadlock=True, dedupe=True, keep_stdout=True, dfs=False, raw_cases=False):
     """module: file name under spec/ (without .tla); cfg: path (absolute or under mc/)."""
     os.makedirs(WORK, exist_ok=True)
     meta = tempfile.mkdtemp(prefix='tlc_', dir=WORK)
@@ -141,7 +145,7 @@ def run(module, cfg, workers=1, env=None, timeout=3600, simulate=None, depth=Non
     finally:
         shutil.rmtree(meta, ignore_errors=True)
     res.wall = time.time() - t0
-    _parse(res, dedupe=dedupe)
+    _parse(res, dedupe=dedupe, raw_cases=raw_cases)
     if workers > 1 and simulate is None and len(res.payloads) == len(res.cases):
         # several workers print in a schedule-dependent order: sort, so that every run of a check sees the same sequence of cases
         order = sorted(range(len(res.cases)), key=lambda i: res.payloads[i])
